@@ -775,12 +775,12 @@ class World:
         if v is not True:
             # The listed properties speak of edits of values, formulas, references, members and
             # bases; a held None whose permission is withdrawn afterwards is not among them
-            # (modelx keeps it).  The edit is therefore applied as "discard the computed None
-            # values, then change the setting"; assigned values stay.
+            # (modelx keeps it, and what was computed from it -- also through uncached cells,
+            # which hold nothing themselves).  The edit is therefore applied as "discard the
+            # computed values, then change the setting"; assigned values stay.
             for s in self.all_spaces():
                 for c in self.cells_impls(s):
-                    for k in [k for k, x in list(c.data.items()) if x is None and k not in c.input_keys]:
-                        c.clear_value_at(k, clear_input=False)
+                    c.on_namespace_change()     # computed values and, for uncached cells, the object node
         if "c" in op:
             self.space(op["s"]).cells[op["c"]].allow_none = v
         elif op["s"]:
